@@ -375,7 +375,8 @@ func (r *reader) _readEvent(canary byte) (m Message, err error) {
 			m = mm
 
 		default:
-			panic(fmt.Sprintf("must not happen: invalid canary % X", canary))
+			// a data byte without running status or a status byte that is not allowed in a SMF file
+			return nil, fmt.Errorf("invalid status byte % X", canary)
 		}
 
 		// on a voice/channel category message with status either given or cached (running status)
